@@ -416,6 +416,12 @@ impl CoreDocument {
     if self.resolve_method(method.id(), None).is_some() || self.service().query(method.id()).is_some() {
       return Err(Error::MethodInsertionError);
     }
+    // `resolve_method` stops at the first relationship entry that matches the DID and fragment of the query, which
+    // may be a reference that does not resolve (e.g. `did:example:123?versionId=1#key-1`) and then hides a method
+    // with exactly this identifier in another relationship: compare the identifiers of all embedded methods too.
+    if self.methods(None).into_iter().any(|existing| existing.id() == method.id()) {
+      return Err(Error::MethodInsertionError);
+    }
     // An embedded method must not share its identifier with any entry of a verification relationship, including
     // references that do not resolve to a method of this document (these are not found by the check above).
     if matches!(scope, MethodScope::VerificationRelationship(_))
